@@ -105,3 +105,28 @@ func one(b []byte) []hx.Chunk {
 func u(x uint64) string { return strconv.FormatUint(x, 10) }
 
 var _ = fmt.Sprint
+
+// manualWire lays a frame with a raw message out by hand (independent of frame.Writer).
+func manualWire(fr frame.Frame) []byte {
+	raw := fr.GetMessage().(*message.MessageRaw)
+	switch f := fr.(type) {
+	case *frame.V1Frame:
+		b := []byte{0xFE, byte(len(raw.Payload)), f.SequenceNumber, f.SystemID, f.ComponentID, byte(raw.ID)}
+		b = append(b, raw.Payload...)
+		return append(b, byte(f.Checksum), byte(f.Checksum>>8))
+	case *frame.V2Frame:
+		b := []byte{0xFD, byte(len(raw.Payload)), f.IncompatibilityFlag, f.CompatibilityFlag, f.SequenceNumber, f.SystemID, f.ComponentID,
+			byte(raw.ID), byte(raw.ID >> 8), byte(raw.ID >> 16)}
+		b = append(b, raw.Payload...)
+		b = append(b, byte(f.Checksum), byte(f.Checksum>>8))
+		if f.IncompatibilityFlag&1 != 0 {
+			b = append(b, f.SignatureLinkID)
+			for i := 0; i < 6; i++ {
+				b = append(b, byte(f.SignatureTimestamp>>(8*uint(i))))
+			}
+			b = append(b, f.Signature[:]...)
+		}
+		return b
+	}
+	return nil
+}
